@@ -612,9 +612,23 @@ func runC18DL(t fataler, c c18DL) (string, c18DLResult) {
 		nc.SetWriteDeadline(time.Now().Add(c.FinalD))
 		start := time.Now()
 		var err error
+		keep := append([]byte(nil), payload...)
+		if !c.PongInside {
+			fillBytes(payload, 99)
+			copy(keep, payload)
+		}
 		d := e.Call(func() { _, err = nc.Write(payload) })
+		// a net.Conn's Write must not modify the slice it is given, not even temporarily (io.Writer): an
+		// application that hands the same buffer to several connections, or reads it meanwhile, sees it
+		synctest.Wait()
+		if !bytes.Equal(payload, keep) {
+			return fmt.Sprintf("the buffer passed to NetConn's Write differs from what the caller put there WHILE the Write is blocked in the transport (first difference at %d of %d)", firstDiff(payload, keep), len(keep)), res
+		}
 		if !within(d, c.FinalD+time.Second) {
 			return "Write blocked past its deadline + 1 s", res
+		}
+		if !bytes.Equal(payload, keep) {
+			return fmt.Sprintf("the buffer passed to NetConn's Write was left modified by a Write that failed (first difference at %d of %d)", firstDiff(payload, keep), len(keep)), res
 		}
 		if err == nil {
 			return "Write returned nil although the peer accepts nothing", res
